@@ -460,7 +460,14 @@ def dim_sources(repo: Repo, chk: Check) -> None:
     if not rets:
         raise AnalysisError(f"{h.where}: no accepting return")
     for n_, s in enumerate(rets, 1):
-        ok = all(any(fa.kind == "atom" and kind_fact(fa.expr) and "SubviewOp" not in fa.text for fa in alt.facts.values()) for alt in s.state.alts) and bool(s.state.alts)
+        # `return <test>` accepts exactly when the test holds: its conjuncts are facts of the accepting outcome
+        extra = []
+        if not (isinstance(s.node.value, ast.Constant) and s.node.value.value is True):
+            v_ = norm.canon(s.expand(s.node.value))
+            conj = v_.values if isinstance(v_, ast.BoolOp) and isinstance(v_.op, ast.And) else [v_]
+            extra = [c_ for c_ in conj if isinstance(c_, (ast.Call, ast.Compare, ast.BoolOp, ast.UnaryOp))]
+        ok = all(any(fa.kind == "atom" and kind_fact(fa.expr) and "SubviewOp" not in fa.text for fa in alt.facts.values())
+                 or any(kind_fact(c_) and "SubviewOp" not in ast.unparse(c_) for c_ in extra) for alt in s.state.alts) and bool(s.state.alts)
         chk.result(ok, "C17.dim-sources", f"{h.key}:accept#{n_}", s.where(),
                    "a size is accepted only for the producer kinds the hoisting code can reproduce",
                    f"`return {ast.unparse(s.node.value)[:70]}` accepts a size whose producer is of no particular kind: a multi-result op's result #1 is replaced by "
